@@ -45,6 +45,9 @@ class EventRecorder:
         self.get_type = get_type
         self.events = []
         self.frames = {}          # id(frame) -> fid, while alive
+        self.by_tok = {}          # the generated function's own call token -> fid
+        self.foreign = set()      # ids of frames that were started before the recording began
+        self.n_foreign = 0
         self.codes = {}           # code -> cid
         self.code_objs = {}
         self.nf = 0
@@ -71,23 +74,41 @@ class EventRecorder:
     def record(self, frame, event, arg, code):
         cid = self.cid(code)
         lasti = frame.f_lasti
+        # CPython may hand out a fresh frame *object* for a suspended frame nobody references (sampled-out generators), so the
+        # object's id is not a stable name for the frame; the generated functions keep a unique token in the local `_t`
+        tok = frame.f_locals.get("_t") if "_t" in code.co_varnames else None
+        if tok is not None and tok in self.by_tok:
+            self.frames[id(frame)] = self.by_tok[tok]
         if event == "call":
-            resumed = bool(lasti >= 0 and RESUME is not None and code.co_code[lasti] == RESUME and code.co_code[lasti + 1] != 0)
-            if not resumed or id(frame) not in self.frames:
-                if resumed:
-                    self.malformed.append("resumption of an unknown frame")
+            # a frame that starts running is at its RESUME 0; anywhere else it was suspended (RESUME n after a yield / await,
+            # or still at the YIELD_VALUE when the generator is closed or thrown into)
+            resumed = bool(lasti >= 0 and RESUME is not None and not (code.co_code[lasti] == RESUME and code.co_code[lasti + 1] == 0))
+            if resumed and id(frame) not in self.frames:
+                # a frame that was started before this recording began (a generator left over from an earlier run that is
+                # only finalised now): its events are not part of this history; the tracer under test ignores them too
+                self.foreign.add(id(frame))
+                self.n_foreign += 1
+                return
+            if not resumed:
+                self.foreign.discard(id(frame))
                 self.nf += 1
                 self.frames[id(frame)] = self.nf
             fid = self.frames[id(frame)]
+            if tok is not None:
+                self.by_tok[tok] = fid
             names = code.co_varnames[: code.co_argcount + code.co_kwonlyargcount]
             args = tuple((Q(n), self.ty(frame.f_locals[n])) for n in names if n in frame.f_locals)
             self.events.append(("call", str(fid), str(cid), "true" if resumed else "false", args))
         else:
+            if id(frame) in self.foreign and id(frame) not in self.frames:
+                return
             fid = self.frames.get(id(frame))
             if fid is None:
                 self.malformed.append("return from an unknown frame")
                 self.nf += 1
                 fid = self.frames[id(frame)] = self.nf
+            if tok is not None:
+                self.by_tok[tok] = fid
             op = OPCLASS.get(code.co_code[lasti], "other")
             coro = bool(code.co_flags & inspect.CO_COROUTINE)
             sem = {"retValue": "returned", "retConst": "returned", "other": "raised"}.get(op) or ("awaited" if coro else "yielded")
